@@ -63,17 +63,28 @@ theorem inv_removeRec {s : State} (h : Inv s) (fuel : Nat) (c : Cid)
     subst this
     cases hk : y.kind <;> simp_all [Kind.isCoord, Kind.isDerived]
 
-theorem isCoordCid_false {s : State} {c : Cid} (h : isCoordCid s c = false) :
+/-- The refusal test of `remove_component` (F20) is false: `c` is not a coordinate component. -/
+theorem notCoord_of_any {s : State} {c : Cid}
+    (h : s.comps.any (fun x => x.cid == c && x.kind.isCoord) = false) :
     ∀ x ∈ s.comps, x.cid = c → x.kind.isCoord = false := by
   intro x hx hxc
-  simp only [isCoordCid, Bool.or_eq_false_iff, List.any_eq_false, Bool.and_eq_true, beq_iff_eq, not_and,
-    Bool.not_eq_true] at h
-  exact h.2 x hx hxc
+  simp only [List.any_eq_false, Bool.and_eq_true, beq_iff_eq, not_and, Bool.not_eq_true] at h
+  exact h x hx hxc
 
-theorem inv_removeComp {s : State} (h : Inv s) (c : Cid) (hc : isCoordCid s c = false) :
+theorem inv_removeComp {s : State} (h : Inv s) (c : Cid)
+    (hc : ∀ x ∈ s.comps, x.cid = c → x.kind.isCoord = false) :
     Inv (removeComp s c).1 := by
   simp only [removeComp]
-  exact inv_removeRec h _ c (isCoordCid_false hc)
+  exact inv_removeRec h _ c hc
+
+/-- `remove_component` (public): refused for a coordinate component, otherwise the cascade. -/
+theorem inv_remove {s : State} (h : Inv s) (c : Cid) : Inv (step s (.remove c)).state := by
+  simp only [step]
+  split
+  · exact h
+  · rename_i hco
+    simp only [ok]
+    exact inv_removeComp h c (notCoord_of_any (by simpa using hco))
 
 /-! ## add_component -/
 
@@ -370,15 +381,61 @@ theorem inv_addArray {s : State} (h : Inv s) (l : Label) (shape : Shape) (val : 
     · exact hsh
     · rw [canAdd_fresh]; simpa using hcan
 
+/-- `self._components[cid] = component` for an id that is a key: the entry is replaced in place. -/
+theorem insertComp_present {cs : List Comp} {c : Comp} (h : c.cid ∈ cids cs) :
+    insertComp cs c = cs.map (fun x => if x.cid == c.cid then c else x) := by
+  simp [insertComp, h]
+
+/-- `add_component(array, id)` onto an id in use for an array (F21): the array is replaced in place. -/
+theorem addMain_replace {s : State} (h : Inv s) {c : Cid} (hin : c ∈ cids s.comps) (shape : Shape) (val : Nat) :
+    addMain s c shape val =
+      ({ s with comps := s.comps.map (fun x => if x.cid == c then ⟨c, .main, shape, val⟩ else x) },
+       if s.hub then [.numerical (some [c])] else []) := by
+  have hne : s.comps ≠ [] := by
+    intro he; rw [he] at hin; cases hin
+  have hns := inv_shape_ne h hne
+  have h1 : s.comps.isEmpty = false := by simpa using hne
+  have h2 : (s.shape == []) = false := by simpa using hns
+  have h3 : (cids s.comps).contains c = true := by simpa using hin
+  simp only [addMain, h1, Res.bind, addRaw, h2, h3, Bool.false_and, Bool.false_eq_true, if_false, if_true,
+    List.nil_append]
+  rw [insertComp_present (c := ⟨c, .main, shape, val⟩) hin]
+
 theorem inv_addArrayAt {s : State} (h : Inv s) (c : Cid) (shape : Shape) (val : Nat) (hsh : shape ≠ [])
-    (hc : c < s.next) (hnew : c ∉ cids s.comps) :
+    (hc : c < s.next) :
     Inv (step s (.addArrayAt c shape val)).state := by
   simp only [step]
   split
   · exact h
-  · rename_i hcan
-    simp only [ok]
-    exact inv_addMain h c hc hnew shape val hsh (by simpa using hcan)
+  · rename_i hkind
+    split
+    · exact h
+    · rename_i hcan
+      simp only [ok]
+      by_cases hin : c ∈ cids s.comps
+      · rw [addMain_replace h hin]
+        have hne : s.comps ≠ [] := by
+          intro he; rw [he] at hin; cases hin
+        have hshape := canAdd_nonempty h hne (by simpa using hcan)
+        have hmain : ∀ x ∈ s.comps, x.cid = c → x.kind = .main := by
+          intro x hx hxc
+          simp only [List.any_eq_true, Bool.and_eq_true, beq_iff_eq, not_exists, not_and,
+            Bool.not_eq_eq_eq_not, Bool.not_true] at hkind
+          have := hkind x hx hxc
+          cases hk : x.kind <;> simp_all [Kind.isMain]
+        apply inv_map h
+        · intro x hx
+          by_cases hxc : x.cid = c
+          · simp [hxc, hmain x hx hxc]
+          · have : (x.cid == c) = false := by simpa using hxc
+            simp [this]
+        · intro x hx hk
+          by_cases hxc : x.cid = c
+          · simp [hxc, hshape]
+          · have : (x.cid == c) = false := by simpa using hxc
+            simp only [this, Bool.false_eq_true, if_false]
+            exact h.shapes x hx hk
+      · exact inv_addMain h c hc hin shape val hsh (by simpa using hcan)
 
 
 /-! ## reorder_components -/
